@@ -67,8 +67,8 @@ def generate(streams, prop):
         else:
             a, b = rng.choice(PAIRS)
             st = {"k": "probe", "x": rng.choice([1.0, 2.0, 500.0, 0.25]), "src": a, "dst": b,
-                  "form": rng.choice(["to", "to", "convert", "to_ctx", "compat_q"])}
-            if st["form"] == "to_ctx" or (st["form"] == "compat_q" and rng.random() < 0.5):
+                  "form": rng.choice(["to", "to", "convert", "to_ctx", "compat_q", "ito"])}
+            if st["form"] == "to_ctx" or (st["form"] in ("compat_q", "ito") and rng.random() < 0.5):
                 st["ctxs"], st["kw"] = activation()
             steps.append(st)
     for i, st in enumerate(steps):
@@ -137,6 +137,10 @@ def run_case(case, col: Collector, log: Log):
                 try:
                     if s["form"] in ("to", "to_ctx"):
                         got = ("val", float(ureg.Quantity(s["x"], s["src"]).to(s["dst"], *args, **kw).magnitude))
+                    elif s["form"] == "ito":
+                        q = ureg.Quantity(s["x"], s["src"])
+                        q.ito(s["dst"], *args, **kw)
+                        got = ("val", float(q.magnitude))
                     elif s["form"] == "convert":
                         got = ("val", float(ureg.convert(s["x"], s["src"], s["dst"])))
                     else:
